@@ -165,6 +165,9 @@ fn main() {
             args.push("--expect".to_string());
         }
     }
+    if cmd == "c05-fresh" {
+        std::process::exit(c05::fresh_main());
+    }
     if cmd == "warmtest" {
         c05::warmtest();
         return;
